@@ -115,5 +115,10 @@ func (d *datagramBufferedPipe) broadcastAfter(t time.Duration) {
 	if d.timeoutTimer != nil {
 		d.timeoutTimer.Stop()
 	}
-	d.timeoutTimer = time.AfterFunc(t, d.rwCond.Broadcast)
+	d.timeoutTimer = time.AfterFunc(t, func() {
+		// under the lock: the wake-up must not land between a reader's deadline check and its Wait
+		d.rwCond.L.Lock()
+		d.rwCond.Broadcast()
+		d.rwCond.L.Unlock()
+	})
 }
